@@ -62,6 +62,9 @@ theorem sim_release {cfg : Cfg} {d d' : RState} {m : Mon} {o : Obs} (hs : Sim cf
     · omega
     · exact this.2.2.2 (by simpa using h)
   · have hno' : (k = 0 || k > d.nslow || d.released.contains k) = false := by simpa using hno
+    have hkle : k ≤ d.nslow := by
+      simp only [Bool.or_eq_false_iff, decide_eq_false_iff_not] at hno'
+      omega
     cases hfind : d.pend.find? (slotIs k) with
     | none =>
       -- the slot was never used by a request that is still around
@@ -74,7 +77,7 @@ theorem sim_release {cfg : Cfg} {d d' : RState} {m : Mon} {o : Obs} (hs : Sim cf
       have hmo : modelOp d (.release k) = some { st := d.st, status := .ok, hdr := none, hang := false, done := [], log := [], pend := d.pend, nslow := d.nslow, nasync := d.nasync, released := d.released ++ [k] } := by
         simp only [modelOp]; rw [if_neg hno, hfind]
       apply sim_one_op (i := 0) (G := id) hs hmo (Or.inl rfl) (by rw [map_lift_id 0]) (fun _ => rfl) rfl rfl rfl rfl hs.inv
-        (pendOkW_release hpw k hnoslot) (fun j _ => ⟨rfl, rfl⟩) (fun p hp j _ _ => hs.pok.keep hp) (tblX := m.tbl)
+        (pendOkW_release hpw k hnoslot hkle) (fun j _ => ⟨rfl, rfl⟩) (fun p hp j _ _ => hs.pok.keep hp) (tblX := m.tbl)
       · rw [hba]
         simp only [bookSlots]
         rw [hs.run, find_runOf_none (fun q hq x hx => by
@@ -103,6 +106,8 @@ theorem sim_release {cfg : Cfg} {d d' : RState} {m : Mon} {o : Obs} (hs : Sim cf
       · rw [hreq]; rfl
       · exact chkLog_nil _ _ _
       · simp [chkNoId, hreq]
+      · rfl
+      · intro h hh; cases hh
       · rfl
       · rfl
       · simp [countersAfter, hs.nslow, hs.nasync]
@@ -175,7 +180,7 @@ theorem sim_release {cfg : Cfg} {d d' : RState} {m : Mon} {o : Obs} (hs : Sim cf
             exact hq'.2 (by rw [this])
           apply sim_one_op (st2 := { d.st with tbl := d.st.tbl.map (lift i (settleE d.st.now d.st.closeFails ∘ (tryF (endPost d.st.now d.st.cfg.timeout false) ∘ tryF (handlerDoneF false)))) })
             hs hmo (Or.inr (by rw [hst1]; exact hsettle)) rfl hG rfl rfl rfl rfl hinv1
-            (pendOkW_release (pendOkW_filter hpw _) slot hPslot)
+            (pendOkW_release (pendOkW_filter hpw _) slot hPslot hkle)
             (tblX := monUpd m.tbl (sname i) (mPostDone m.now))
           · intro j hj
             have h1 := nsOf_filter_tag hs.pok.tags hp j
@@ -221,6 +226,8 @@ theorem sim_release {cfg : Cfg} {d d' : RState} {m : Mon} {o : Obs} (hs : Sim cf
           · exact chkLog_nil _ _ _
           · simp [chkNoId, hreq]
           · rfl
+          · intro h hh; cases hh
+          · rfl
           · rfl
           · simp [countersAfter, hs.nslow, hs.nasync]
           · exact hop
@@ -263,7 +270,7 @@ theorem sim_release {cfg : Cfg} {d d' : RState} {m : Mon} {o : Obs} (hs : Sim cf
           exact hq'.2 (by rw [this])
         apply sim_one_op (st2 := { d.st with tbl := d.st.tbl.map (lift i (settleE d.st.now d.st.closeFails ∘ tryF (handlerDoneF false))) })
           hs hmo (Or.inr (by rw [hd1]; exact hsettle)) rfl hG rfl rfl rfl rfl hinv1
-          (pendOkW_release (pendOkW_filter hpw _) slot hPslot)
+          (pendOkW_release (pendOkW_filter hpw _) slot hPslot hkle)
           (tblX := monUpd m.tbl (sname i) mRunDec)
         · intro j hj
           have h1 := nsOf_filter_tag hs.pok.tags hp j
@@ -305,6 +312,8 @@ theorem sim_release {cfg : Cfg} {d d' : RState} {m : Mon} {o : Obs} (hs : Sim cf
         · exact chkLog_nil _ _ _
         · simp [chkNoId, hreq]
         · rfl
+        · intro h hh; cases hh
+        · rfl
         · rfl
         · simp [countersAfter, hs.nslow, hs.nasync]
         · exact hop
@@ -321,7 +330,7 @@ theorem pendOkW_append_run {P : List Pend} {ns na : Nat} {rel : List Nat} {next 
     | run a b => rw [hqk] at this; rw [this.1] at hqt; cases hqt; exact hs (by simp [slotOf, hqk])
     | del j f => rw [hqk] at this; obtain ⟨n, hn, _⟩ := this; rw [hn] at hqt; cases hqt
     | cls j => rw [hqk] at this; obtain ⟨n, hn, _⟩ := this; rw [hn] at hqt; cases hqt
-  refine ⟨?_, ?_, ?_, ?_, ?_⟩
+  refine ⟨?_, ?_, ?_, ?_, ?_, h.relLe⟩
   · rw [List.map_append, List.nodup_append]
     refine ⟨h.tags, by simp, ?_⟩
     intro a ha b hb hab
@@ -482,6 +491,8 @@ theorem sim_abandon {cfg : Cfg} {d d' : RState} {m : Mon} {o : Obs} (hs : Sim cf
         · rw [hreq]; rfl
         · exact chkLog_nil _ _ _
         · simp [chkNoId, hreq]
+        · rfl
+        · intro h hh; cases hh
         · rfl
         · rfl
         · simp [countersAfter, hs.nslow, hs.nasync]
